@@ -132,6 +132,12 @@ add("ann", S("ATHENA<wisdom>"), [one("ATHENA<wisdom>")], "core")
 add("ctor1", S("NEVER<A>"), [one("NEVER<A>"), one("NEVER", "[", "A", "]")], "core")
 add("ctor2", S("NEVER<A,B>"), [one("NEVER<A,B>"), one("NEVER", "[", "A", ",", "B", "]")], "full")
 add("ctor0", S("FOO<>"), [one("FOO<>"), one("FOO", "[", "]")], "full")
+# ---- operators inside a bracket group that is captured as text (constructor arguments, a bracket group inside an expression)
+add("ctorop", S("CHECK<lint{U2227}test>"), [one('"CHECK<lint', AND, 'test>"'), one("CHECK", "[", "lint", AND, "test", "]"), one("CHECK", "[", "lint", "&", "test", "]")], "full")
+add("ctorops", S("RULES<fast{U2192}safe,a{U2228}b>"), [one('"RULES<fast', ARROW, "safe,a", OR, 'b>"'), one("RULES", "[", "fast", ARROW, "safe", ",", "a", OR, "b", "]"),
+                                                        one("RULES", "[", "fast", "->", "safe", ",", "a", "|", "b", "]")], "full")
+add("stageop", S("STAGE[x{U2228}y]{U2192}DONE"), [one('"STAGE[x', OR, "y]", ARROW, 'DONE"'), one("STAGE", "[", "x", OR, "y", "]", ARROW, "DONE"),
+                                                   one("STAGE", "[", "x", "|", "y", "]", "->", "DONE")], "full")
 # ---- holographic
 add("holo", H('["x"{U2227}REQ{U2192}{U00A7}T]'),
     [one("[", '"x"', AND, "REQ", ARROW, SEC, "T", "]"), one("[", '"x"', "&", "REQ", "->", "#", "T", "]"),
